@@ -193,6 +193,7 @@ def angle_interpolation(P, rep, rule="EXPR.angle"):
                 return bool(far and a2_gt is False)
             return None
         B = Block(P, F, choose=choose, hook=pi_hook(P))
+        B.decide_ternaries = True
         B.sym.env.update(env)
         try:
             B.run(astq.stmts_of(F.body))
